@@ -22,6 +22,10 @@ MASK = "__MASK__"
 ABSENT = "__ABSENT__"
 
 
+class _BoomBase(BaseException):
+    """An exit that is not an Exception (as SystemExit and KeyboardInterrupt are not)."""
+
+
 class _Boom(Exception):
     pass
 
@@ -81,7 +85,7 @@ class C11(Engine):
                     for ok in rng.sample(KEYS, rng.choice((0, 0, 1, 1, 1, 2))):
                         uniq[0] += 1
                         overlay[ok] = MASK if rng.random() < 0.35 else self._val(ok, tid, uniq[0])
-                ops.append({"op": "swap", "vals": vals, "overlay": overlay, "how": rng.choice(("pos", "kw", "mixed", "mixed", "samekey", "badentry")), "exit": rng.choice(("normal", "normal", "raise")), "body": self.gen_ops(rng, tid, depth + 1, budget, uniq)})
+                ops.append({"op": "swap", "vals": vals, "overlay": overlay, "how": rng.choice(("pos", "kw", "mixed", "mixed", "samekey", "badentry")), "exit": rng.choice(("normal", "normal", "raise", "raise", "baseexc")), "body": self.gen_ops(rng, tid, depth + 1, budget, uniq)})
             elif r < 0.40 and depth > 0:
                 # the alias body writes into / deletes from the overlay dict it was handed
                 uniq[0] += 1
@@ -357,7 +361,11 @@ class C11(Engine):
                             run_ops(op["body"], state, w)
                             if op["exit"] == "raise":
                                 raise _Boom()
-                    except _Boom:
+                            if op["exit"] == "baseexc":
+                                # SystemExit / KeyboardInterrupt style exits (an alias calling sys.exit(), Ctrl-C in the block)
+                                probes["exit_by_base_exception"] = probes.get("exit_by_base_exception", 0) + 1
+                                raise _BoomBase()
+                    except (_Boom, _BoomBase):
                         pass
                     finally:
                         if has_ov:
